@@ -97,6 +97,8 @@ class _SeededUUID:
 def install_uuid_shim():
     import dask_expr._shuffle as sh
 
+    if not hasattr(sh, "uuid"):
+        return None  # this tree draws no uuid in the shuffle module: nothing to make replayable
     if not isinstance(sh.uuid, _SeededUUID):
         sh.uuid = _SeededUUID()
     return sh.uuid
